@@ -8,6 +8,7 @@ import (
 	"runtime/debug"
 	"sort"
 	"sync"
+	"time"
 
 	"github.com/RoaringBitmap/roaring/v2"
 	segment "github.com/blevesearch/scorch_segment_api/v2"
@@ -209,6 +210,10 @@ func checkC11(c *ctx) {
 	defer func() { zap.LegacyChunkMode = saved }()
 	if bad := sameProcessorMerge(c); bad != "" {
 		c.Violation("C11 a merge that re-encodes stored fields (deletions) next to a reader scheduled on the same processor (GOMAXPROCS=1, so both draw the same pooled scratch object)\n"+bad, false)
+		return
+	}
+	if bad := thesaurusFirstUseRace(c); bad != "" {
+		c.Violation("C11 "+bad, false)
 		return
 	}
 	rounds := c.n(40, 800)
@@ -500,4 +505,87 @@ func sameProcessorMerge(c *ctx) string {
 		result += fmt.Sprintf("\n(%d documents x %d stored values of equal size, every (7+m)-th document deleted)", nd, nv)
 	}
 	return result
+}
+
+// thesaurusFirstUseRace: a segment with three thesauri; one of them has been used already, six readers
+// keep listing it while two other goroutines use the other two for the first time.  Every listing must
+// equal the listing obtained alone, and everybody must come back.
+func thesaurusFirstUseRace(c *ctx) string {
+	names := []string{"syn1", "syn2", "thesaurus"}
+	var b zh.Batch
+	for d := 0; d < 3; d++ {
+		doc := zh.Doc{Fields: []zh.Field{zh.IDField(fmt.Sprintf("t%02d", d))}}
+		for ni, n := range names {
+			doc.Fields = append(doc.Fields, zh.Field{Name: n, Typ: 's', Syn: []zh.SynDef{
+				{Term: "big", Syns: []string{"large", zh.SynVocab[(d+ni)%5]}},
+				{Term: []string{"cat", "x", "glad"}[d], Syns: []string{"huge"}}}})
+		}
+		b = append(b, doc)
+	}
+	sb, _, err := zh.Build(b, 1026)
+	must(err)
+	defer sb.Close()
+	path := zh.TmpPath("c11thes")
+	must(zap.PersistSegmentBase(sb, path))
+	defer os.Remove(path)
+	want := map[string]string{}
+	for _, n := range names {
+		t, err := zh.DumpThesaurus(sb, n, nil)
+		must(err)
+		want[n] = fmt.Sprint(t)
+	}
+	reps := c.n(60, 1500)
+	for rep := 0; rep < reps; rep++ {
+		seg, err := zh.Plugin.Open(path)
+		must(err)
+		ts := seg.(segment.ThesaurusSegment)
+		if t, err := zh.DumpThesaurus(ts, "syn1", nil); err != nil || fmt.Sprint(t) != want["syn1"] {
+			seg.Close()
+			return fmt.Sprintf("thesaurus syn1 of a freshly opened segment lists %v (err %v), the built segment lists %s", t, err, want["syn1"])
+		}
+		errs := make(chan string, 16)
+		var wg sync.WaitGroup
+		start := make(chan struct{})
+		list := func(n string, times int) {
+			defer wg.Done()
+			defer func() {
+				if r := recover(); r != nil {
+					errs <- fmt.Sprintf("PANIC while listing thesaurus %q: %v", n, r)
+				}
+			}()
+			<-start
+			for k := 0; k < times; k++ {
+				t, err := zh.DumpThesaurus(ts, n, nil)
+				if err != nil || fmt.Sprint(t) != want[n] {
+					errs <- fmt.Sprintf("thesaurus %q lists %v (err %v) while other goroutines use the segment; alone it lists %s", n, t, err, want[n])
+					return
+				}
+			}
+		}
+		for g := 0; g < 6; g++ {
+			wg.Add(1)
+			go list("syn1", 60)
+		}
+		wg.Add(2)
+		go list("syn2", 1)
+		go list("thesaurus", 1)
+		done := make(chan struct{})
+		go func() { wg.Wait(); close(done) }()
+		close(start)
+		select {
+		case <-done:
+		case <-time.After(20 * time.Second):
+			buf := make([]byte, 1<<16)
+			buf = buf[:runtime.Stack(buf, true)]
+			return fmt.Sprintf("a segment with three thesauri (syn1 used once before): 6 goroutines list syn1 60 times each while two goroutines use syn2 and thesaurus for the first time; after 20 s they have not all returned (repetition %d)\n%s", rep, clip(string(buf)))
+		}
+		close(errs)
+		for e := range errs {
+			seg.Close()
+			return fmt.Sprintf("a segment with three thesauri (syn1 used once before), 6 goroutines listing syn1 while two goroutines use syn2 and thesaurus for the first time (repetition %d)\n%s", rep, e)
+		}
+		must(seg.Close())
+		c.Count("thesaurus_first_use_races")
+	}
+	return ""
 }
